@@ -320,6 +320,11 @@ class Table(Vector):
 
 	def __getattr__(self, attr):
 		"""Access columns by sanitized attribute name using pre-computed column map."""
+		# An instance that is still being built (copy.copy / copy.deepcopy / pickle create it without
+		# __init__) has no columns yet. Without this guard the lookup of _underlying below recursed
+		# forever, which made t == t, t < t, ... (they deep-copy a repeated operand) raise RecursionError.
+		if '_underlying' not in self.__dict__:
+			raise AttributeError(attr)
 		# Check if any column has been renamed and rebuild map if needed
 		if any(col._wild for col in self._underlying or []):
 			self._column_map = self._build_column_map()
